@@ -447,21 +447,21 @@ pub fn relax_dist(g: &G, src: &[usize]) -> Vec<Option<u128>> {
 /// reachable from s, minimum simple-path weight to every vertex).
 /// When no negative circuit is reachable the minimum walk weight equals the
 /// minimum simple-path weight.
-pub fn simple_path_oracle(g: &G, s: usize) -> (bool, Vec<Option<i64>>) {
+pub fn simple_path_oracle(g: &G, s: usize) -> (bool, Vec<Option<i128>>) {
     fn go(
         g: &G,
         v: usize,
-        acc: i64,
-        path: &mut Vec<(usize, i64)>,
+        acc: i128,
+        path: &mut Vec<(usize, i128)>,
         on: &mut Vec<bool>,
-        best: &mut Vec<Option<i64>>,
+        best: &mut Vec<Option<i128>>,
         neg: &mut bool,
     ) {
         if best[v].is_none_or(|b| acc < b) {
             best[v] = Some(acc);
         }
         for x in g.out(v) {
-            let w = g.w(v, x).unwrap();
+            let w = g.w(v, x).unwrap() as i128;
             if on[x] {
                 // circuit x .. v -> x ; prefix weight at x is stored in path
                 let at_x = path.iter().find(|p| p.0 == x).unwrap().1;
@@ -485,6 +485,67 @@ pub fn simple_path_oracle(g: &G, s: usize) -> (bool, Vec<Option<i64>>) {
     let mut path = vec![(s, 0)];
     go(g, s, 0, &mut path, &mut on, &mut best, &mut neg);
     (neg, best)
+}
+
+/// Large structured digraphs (word-size boundaries hide behind ids 31/32/33,
+/// 63/64/65, 127/128). `weights` empty = unweighted (weight 1), otherwise a
+/// deterministic pattern over the given weights.
+///   path: i -> i+1        revpath: i+1 -> i      circuit: i -> (i+1) mod n
+///   cycle: circuit + reverses     star: 0 <-> i     outstar: 0 -> i
+///   bintree: i -> 2i+1, 2i+2
+pub fn structured(kind: &str, n: usize, weights: &[i64]) -> G {
+    let mut g = G::new(n);
+    let mut put = |u: usize, v: usize| {
+        if u != v && u < n && v < n {
+            let w = if weights.is_empty() {
+                1
+            } else {
+                weights[(u * 7 + v * 3 + u / 5) % weights.len()]
+            };
+            let _ = g.arcs.insert((u, v), w);
+        }
+    };
+    for i in 0..n {
+        match kind {
+            "path" => put(i, i + 1),
+            "revpath" => put(i + 1, i),
+            "circuit" => put(i, (i + 1) % n),
+            "cycle" => {
+                put(i, (i + 1) % n);
+                put((i + 1) % n, i);
+            }
+            "star" => {
+                put(0, i);
+                put(i, 0);
+            }
+            "outstar" => put(0, i),
+            "bintree" => {
+                put(i, 2 * i + 1);
+                put(i, 2 * i + 2);
+            }
+            other => panic!("unknown structured digraph {other}"),
+        }
+    }
+    g
+}
+
+pub const STRUCTURED_KINDS: [&str; 7] =
+    ["path", "revpath", "circuit", "cycle", "star", "outstar", "bintree"];
+pub const BOUNDARY_ORDERS: [usize; 6] = [33, 64, 65, 70, 128, 130];
+
+/// ids next to word-size boundaries that exist in 0..n, plus both ends
+pub fn boundary_ids(n: usize) -> Vec<usize> {
+    let mut v: Vec<usize> = [0, 1, 2, 31, 32, 33, 63, 64, 65, 127, 128, 129]
+        .into_iter()
+        .filter(|&x| x < n)
+        .collect();
+    for x in [n / 2, n.saturating_sub(2), n.saturating_sub(1)] {
+        if x < n && !v.contains(&x) {
+            v.push(x);
+        }
+    }
+    v.sort_unstable();
+    v
 }
 
 // ------------------------------------------- representation abstraction ----
@@ -754,6 +815,29 @@ pub fn same<D: Dg>(d: &D, g: &G, what: &str) -> R {
                 format!("{:?}", g.warc_list()),
                 format!("{wa:?}"),
             ));
+        }
+    }
+    Ok(())
+}
+
+/// `same` plus has_arc on pairs of ids next to word-size boundaries and just
+/// outside V (for large orders, where probing every pair is too slow)
+pub fn same_sampled<D: Dg>(d: &D, g: &G, what: &str) -> R {
+    same(d, g, what)?;
+    let n = g.order();
+    let mut ids = boundary_ids(n);
+    ids.extend([n, n + 1, FAR]);
+    for &u in &ids {
+        for &v in &ids {
+            let e = g.has(u, v);
+            let a = d.has_arc(u, v);
+            if e != a {
+                return Err(mk_fail(
+                    &format!("{what}: has_arc({u}, {v}) iff the arc is in A"),
+                    format!("{e}"),
+                    format!("{a}"),
+                ));
+            }
         }
     }
     Ok(())
